@@ -128,6 +128,23 @@ pub fn handle_invariants<L: Language, N: Analysis<L>>(eg: &EGraph<L, N>, handles
         if !eg.ids().contains(&f1.id) {
             return (n, Some(("alive-not-in-ids".into(), format!("{:?} alive but absent from ids()", f1.id))));
         }
+        // the e-nodes of the class as seen through the handle (its user slots as arguments) look up to that invocation
+        let ns = match guard(|| eg.enodes_applied(&f1)) {
+            Ok(x) => x,
+            Err(p) => return (n, Some((format!("enodes_applied() {}", p.site()), format!("enodes_applied({h:?}) panicked: {}", p.msg)))),
+        };
+        for nd in ns {
+            n += 1;
+            match guard(|| eg.lookup(&nd)) {
+                Ok(Some(x)) => {
+                    if !eg.eq(&x, h) {
+                        return (n, Some(("enode-of-handle-in-other-invocation".into(), format!("enodes_applied({h:?}) lists {nd:?}, which looks up to {x:?}"))));
+                    }
+                }
+                Ok(None) => return (n, Some(("enode-of-handle-not-found".into(), format!("enodes_applied({h:?}) lists {nd:?}, which cannot be looked up")))),
+                Err(p) => return (n, Some((format!("lookup() {}", p.site()), format!("lookup({nd:?}) panicked: {}", p.msg)))),
+            }
+        }
     }
     (n, None)
 }
